@@ -519,10 +519,14 @@ func (ex *Exec) Run() {
 	for i := len(ex.deferred) - 1; i >= 0; i-- {
 		d := ex.deferred[i]
 		ex.st = final
-		a, b := ex.fork(d.regPC)
+		// on the paths that registered it, and only while the process is alive or unwinding a panic (os.Exit skips deferred calls)
+		alive := Or(Term{"(< " + final.ghost["exitCode"].S + " 0)", SBool}, final.ghost["panicking"])
+		a, b := ex.fork(And(d.regPC, alive))
 		ex.st = a
 		ex.preArgs = append([]Term{}, d.args...)
+		ex.inDefer = true
 		ex.call(d.call)
+		ex.inDefer = false
 		ex.preArgs = nil
 		final = ex.merge(ex.st, b)
 		if final == nil || ex.unsupported != "" {
